@@ -1040,8 +1040,7 @@ def explore(fn, timeout_ms=10000, prefix=(), max_paths=200000, sample_every=0, b
                                                       formula=s_[:400] + ("..." if len(s_) > 400 else "")))
                     continue
                 st["nontrivial"] += 1
-                if dump_dir and st["nontrivial"] % 50 == 1:
-                    _dump(dump_dir, sp, f, st["nontrivial"])
+                dump_this = bool(dump_dir) and st["nontrivial"] % 40 == 1 and st.get("dumped", 0) < 4
                 r = None
                 if not z3.is_false(f) and len(sp.assumed) < len(sp.pc):
                     # the definitional slice of the path condition (stub contracts, sqrt definitions, domain assumptions) often suffices
@@ -1054,6 +1053,9 @@ def explore(fn, timeout_ms=10000, prefix=(), max_paths=200000, sample_every=0, b
                         r = "unsat"
                 if r is None:
                     r = "sat" if z3.is_false(f) and sp.check() == "sat" else sp.check(z3.Not(f))
+                if dump_this and r in ("unsat", "sat"):
+                    st["dumped"] = st.get("dumped", 0) + 1
+                    _dump(dump_dir, sp, f, st["nontrivial"], r)
                 if r == "unsat":
                     st["discharged"] += 1
                     bn[1] += 1
@@ -1133,11 +1135,11 @@ def robust_model(sp, negated_ob, timeout_ms=5000):
     return None
 
 
-def _dump(dump_dir, sp, f, k):
+def _dump(dump_dir, sp, f, k, answer):
     os.makedirs(dump_dir, exist_ok=True)
     s = z3.Solver()
     for a in sp.pc:
         s.add(a)
     s.add(z3.Not(f))
-    with open(os.path.join(dump_dir, f"q{os.getpid()}_{k}.smt2"), "w") as fh:
+    with open(os.path.join(dump_dir, f"q{os.getpid()}_{k}_{answer}.smt2"), "w") as fh:
         fh.write("(set-logic QF_NRA)\n" + s.sexpr() + "(check-sat)\n")
